@@ -212,7 +212,7 @@ PROPS = {
         level_note="tag references and attached sources are looked up by id only (their getters are documented as id lookups); the order of a "
                    "list that was replaced as a whole by a vector setter is not compared for that one step",
         quick=dict(cases=100, size=400, workers=16, timeout=1800),
-        thorough=dict(cases=5000, size=400, workers=16, timeout=14400),
+        thorough=dict(cases=1200, size=400, workers=16, timeout=14400),
         rule="tape -> program (harness/prog.hpp, profile Valid). Non-trivial: at least 3 successful creates, at least one successful delete/"
              "remove, and a member with a special name ('..', UUID-shaped, case/blank variant, UTF-8, '%', '.') was looked up. Distinct = hash of "
              "the decoded program.",
@@ -326,7 +326,7 @@ PROPS = {
         level_note="one step of a program is exactly one mutating API call; a call that does not throw is outside this property; the snapshot "
                    "reads everything through public getters (updated_at excluded)",
         quick=dict(cases=200, size=400, workers=16, timeout=1800),
-        thorough=dict(cases=8000, size=400, workers=16, timeout=14400),
+        thorough=dict(cases=2500, size=400, workers=16, timeout=14400),
         rule="tape -> program (see harness/prog.hpp, profile Reject). Non-trivial: at least one call was rejected in a state with at least 4 "
              "entities. The evidence lists per rejection class how many rejected calls were checked. Distinct = hash of the decoded program.",
         assumptions=COMMON_ASSUME,
@@ -340,7 +340,7 @@ PROPS = {
                    "(40% of the cases) the snapshot printed by a freshly started process",
         level_note="snapshot = every getter of every entity incl. all stored data, ids, created_at, links and order; updated_at excluded",
         quick=dict(cases=200, size=400, workers=16, timeout=1800),
-        thorough=dict(cases=8000, size=400, workers=16, timeout=14400),
+        thorough=dict(cases=2500, size=400, workers=16, timeout=14400),
         rule="tape -> program (profile Valid). Non-trivial: at least one successful delete/unlink, entities of at least 4 kinds besides the file, "
              "and at least one link alive at the final close. Distinct = hash of the decoded program.",
         assumptions=COMMON_ASSUME,
@@ -354,7 +354,7 @@ PROPS = {
                    "gone - nothing else may differ - and the handle held from before reports itself invalid",
         level_note="prune is a pure function on the snapshot tree; deleteDimensions has no victim id and is covered by C13",
         quick=dict(cases=150, size=400, workers=16, timeout=1800),
-        thorough=dict(cases=8000, size=400, workers=16, timeout=14400),
+        thorough=dict(cases=2000, size=400, workers=16, timeout=14400),
         rule="tape -> program (profile Valid). Non-trivial: a victim that was referenced by holders of at least 2 different kinds, or whose "
              "subtree holds at least 3 entities. Distinct = hash of the decoded program.",
         assumptions=COMMON_ASSUME,
